@@ -8,6 +8,8 @@ import IrVerif.Drive.Inline
 import IrVerif.Drive.Kernel
 import IrVerif.Model.PassFlags3
 import IrVerif.Model.PassKernel
+import IrVerif.Model.PassKernel2
+import IrVerif.Model.PassFlags4
 /-! Protocol handler for the C14 models (`passinfra.*`). -/
 open Lean IrVerif.Drive
 namespace IrVerif.Drive.PassInfra
@@ -402,10 +404,27 @@ def runInline (j : Json) : Except String Json := do
     ("flag2", toJson (inlFlag crit out)), ("idem", toJson (same out2 out)),
     ("stuck2", toJson (inlineRun crit out).st.stuck)]
 
+/-- `[[id, class], ...]`: a partial function on ids (absent = `none`) -/
+def getPairFn (j : Json) (k : String) : Except String (Nat → Option Nat) := do
+  match j.getObjVal? k with
+  | .error _ => return fun _ => none
+  | .ok a =>
+    let l ← (IrVerif.Drive.Kernel.asList (IrVerif.Drive.Kernel.asList IrVerif.Drive.Kernel.asNat)) a
+    let ps := l.filterMap (fun x => match x with | [a, b] => some (a, b) | _ => none)
+    return fun n => (ps.find? (fun p => p.1 = n)).map (·.2)
+
+/-- `[id, ...]`: a set of ids -/
+def getSetFn (j : Json) (k : String) : Except String (Nat → Bool) := do
+  match j.getObjVal? k with
+  | .error _ => return fun _ => false
+  | .ok a =>
+    let l ← (IrVerif.Drive.Kernel.asList IrVerif.Drive.Kernel.asNat) a
+    return fun n => l.contains n
+
 open IrVerif.Kernel IrVerif.PassKernel in
 /-- second deepening round: RemoveUnusedNodes / IdentityElimination as programs over C01's kernel.  `ops` = the
     history that builds the world (C01's alphabet); answer: what the pass changed (delta of the canonical dump),
-    whether it raised, the number of calls it issued, and whether replaying them gives the same world -/
+    whether it raised, the `modified` flag (wave 5 programs), the number of calls it issued, and whether replaying them gives the same world -/
 def runKPass (j : Json) : Except String Json := do
   let ops ← (← getArr j "ops").mapM IrVerif.Drive.Kernel.parseAny
   let w0 := ops.foldl (fun w o => (stepAny w o).1) World.empty
@@ -413,16 +432,51 @@ def runKPass (j : Json) : Except String Json := do
   let funcs ← getNats j "funcs"
   let fuel ← getNat j "fuel"
   let exact := (j.getObjValAs? Bool "exact").toOption.getD false
-  let s ← match (← getStr j "pass") with
-    | "dce" => pure (dceModelK fuel w0 g funcs)
-    | "ie" => pure (ieModelK exact fuel w0 g funcs)
-    | "ofix" => pure (ofixModelK fuel w0 g funcs)
-    | "rminit" => pure (rmInitInputsK w0 g)
-    | "addinit" => pure (addInitInputsK w0 g)
+  let (s, flag) ← match (← getStr j "pass") with
+    | "dce" => pure (dceModelK fuel w0 g funcs, none)
+    | "ie" => pure (ieModelK exact fuel w0 g funcs, none)
+    | "ofix" => pure (ofixModelK fuel w0 g funcs, none)
+    | "rminit" => pure (rmInitInputsK w0 g, none)
+    | "addinit" => pure (addInitInputsK w0 g, none)
+    | "cse" => do
+      let r := cseModelK exact (← getPairFn j "akey") w0 g
+      pure (r.1, some r.2)
+    | "lc" => do
+      let liftAll := (j.getObjValAs? Bool "liftAll").toOption.getD false
+      let r := lcModelK liftAll (← getSetFn j "big") (← getSetFn j "tnamed") fuel w0 g
+      pure (r.1, some (r.2 != 0))
+    | "lsi" => do
+      let r := lsiModelK fuel w0 g
+      pure (r.1, some (r.2 != 0))
+    | "dd" => do
+      let r := ddModelK (← getPairFn j "hkey") (← getPairFn j "tkey") fuel w0 g
+      pure (r.1, some r.2)
     | p => throw s!"unknown kernel pass {p}"
   return obj [("d", IrVerif.Drive.Kernel.deltaJ w0 s.w), ("raised", toJson s.raised),
     ("calls", toJson s.trace.length), ("replay_same", toJson (decide (replay w0 s.trace.reverse = s.w))),
-    ("late", toJson (decide (s.w.late = w0.late)))]
+    ("late", toJson (decide (s.w.late = w0.late))), ("flag", toJson (flag : Option Bool))]
+
+open IrVerif.PassFlags4 in
+/-- wave 5: AddDefaultAttributesPass.  `table`: the schema answers for the (domain, op, version) triples that occur
+    (a missing triple = SchemaError); `nodes`: the visit sequence. -/
+def runAddDef (j : Json) : Except String Json := do
+  let imports ← (← getArr j "imports").mapM (fun x => do
+    return ((← getStr x "domain"), (← getNat x "version")))
+  let tblL ← (← getArr j "table").mapM (fun x => do
+    let defs ← (← getArr x "defs").mapM (fun d => do
+      let dflt := (d.getObjValAs? Nat "default").toOption
+      return (⟨← getStr d "name", ← getBool d "required", dflt⟩ : AttrDef))
+    return ((← getStr x "domain"), (← getStr x "op"), (← getNat x "version"), defs))
+  let tbl : SchemaTable := fun d op v => (tblL.find? (fun e => e.1 = d ∧ e.2.1 = op ∧ e.2.2.1 = v)).map (·.2.2.2)
+  let nodes ← (← getArr j "nodes").mapM (fun x => do
+    let attrs ← (← getArr x "attrs").mapM (fun a => do return ((← getStr a "k"), (← getNat a "v")))
+    return (⟨← getStr x "domain", ← getStr x "op", (x.getObjValAs? Nat "version").toOption, attrs⟩ : ANode))
+  let r := addDefaults tbl imports nodes
+  let r2 := addDefaults tbl imports r.1
+  return obj [("flag", toJson r.2), ("before", toJson (absentCount tbl imports nodes)),
+    ("after", toJson (absentCount tbl imports r.1)),
+    ("attrs", toJson (r.1.map (fun n => n.attrs.map (fun a => Json.arr #[toJson a.1, toJson a.2])))),
+    ("flag2", toJson r2.2), ("idem", toJson (decide (r2.1 = r.1)))]
 
 def handle : Handler := fun m j =>
   match m with
@@ -442,6 +496,7 @@ def handle : Handler := fun m j =>
   | "passinfra.unusedfn" => some (runUnusedFn j)
   | "passinfra.inline" => some (runInline j)
   | "passinfra.kpass" => some (runKPass j)
+  | "passinfra.adddef" => some (runAddDef j)
   | "passinfra.sorted" => some do
     let m ← IrVerif.Drive.Passes.getModel (← j.getObjVal? "model")
     return obj [("sorted", toJson (IrVerif.PassFlags.sortedModel m))]
